@@ -44,7 +44,7 @@ def st_layouts(draw, t):
         if s[0] != "model" or draw(st.integers(0, 1)) == 0:
             continue
         ms = s[1]
-        how = draw(st.sampled_from(["rename", "style", "nested", "as_list", "forbid", "rename+forbid"]))
+        how = draw(st.sampled_from(["rename", "style", "nested", "nested+forbid", "as_list", "forbid", "rename+forbid"]))
         lay = {"how": how}
         if how == "as_list" and not all(f.get("d") is None for f in ms["fields"]):
             how = lay["how"] = "rename"
@@ -52,9 +52,10 @@ def st_layouts(draw, t):
             lay["map"] = {f["n"]: f"K{i}" for i, f in enumerate(ms["fields"]) if draw(st.booleans())}
         if how == "style":
             lay["style"] = draw(st.sampled_from(["CAMEL", "UPPER_KEBAB", "PASCAL_DOT", "UPPER_SNAKE"]))
-        if how == "nested":
-            lay["nest"] = {f["n"]: draw(st.sampled_from([["outer"], ["o1", "o2"], ["grp"]])) for f in ms["fields"]
-                           if draw(st.booleans())}
+        if how in ("nested", "nested+forbid"):
+            # also three levels deep, so that some container ("o1", "deep") holds only other containers
+            lay["nest"] = {f["n"]: draw(st.sampled_from([["outer"], ["o1", "o2"], ["grp"], ["deep", "a", "x"], ["deep", "b"]]))
+                           for f in ms["fields"] if draw(st.booleans())}
         out[ms["name"]] = lay
     return out
 
@@ -181,6 +182,19 @@ def collect_sites(spec, data, trail, parent, key, e, layouts, out):  # noqa: C90
         if lay is not None and "forbid" in lay["how"]:
             out.append(Site(trail, (*trail, "<add-extra>"), "unknown_key",
                             lambda: data.__setitem__("zz_unknown", 1), ("extra", trail, "zz_unknown")))
+            # the policy holds for every container of a flattened layout, also for one that holds only other containers
+            inner = set()
+            for f in ms["fields"]:
+                pth = field_path(ms, f, lay)
+                for k in range(1, len(pth)):
+                    inner.add(pth[:k])
+            for pth in sorted(inner):
+                cur = data
+                for k in pth:
+                    cur = cur.get(k) if isinstance(cur, dict) else None
+                if isinstance(cur, dict):
+                    out.append(Site((*trail, *pth), (*trail, *pth, "<add-extra>"), "unknown_key_in_flattened_container",
+                                    (lambda c: lambda: c.__setitem__("zz_unknown", 1))(cur), ("extra", (*trail, *pth), "zz_unknown")))
         groups = {}
         for f in ms["fields"]:
             pth = field_path(ms, f, lay)
